@@ -112,7 +112,7 @@ theorem SidsUnique_of_SysInv {sys : Sys} (h : SysInv sys) : SidsUnique sys := by
     subscription answers with an empty response only if the clock has reached its wait limit —
     otherwise it returns the messages that became available (at once after the expiry re-check,
     or when the earliest expiry timer of the subscription fires). -/
-theorem C15_blocking_pull (sys : Sys) (raw : Bytes) (mx : Int) (n : Name) (e : SubEnt)
+theorem C15_blocking_pull_aux (sys : Sys) (raw : Bytes) (mx : Int) (n : Name) (e : SubEnt)
     (hp : parseSubName raw = some n) (hf : sys.findSub n = some e)
     (hs : sys.streams = []) (hok : SubsOk sys) (hinv : SysInv sys)
     (hfuel : (sys.subTurn e.sid (.pull (i32AsU16 mx) sys.clock)).1.totalOut ≤ 1000000)
@@ -128,6 +128,113 @@ theorem C15_blocking_pull (sys : Sys) (raw : Bytes) (mx : Int) (n : Name) (e : S
   · exact SubsOk_subTurn hok _ _ (by simp)
   · unfold SidsUnique; rw [sids_subTurn]; exact hu
   · exact hfuel
+
+theorem pull_empty_keeps_out (s : SubState) (mx now : Nat) (h : (s.turn (.pull mx now)).2.delivered = []) :
+    (s.turn (.pull mx now)).1.out = s.out := by
+  cases hd : s.deleted with
+  | true => simp [SubState.turn, hd]
+  | false =>
+    have := pull_turn s mx now hd
+    rw [this.2] at h
+    rw [this.1]
+    simp only
+    rw [h]
+    rfl
+
+theorem expire_len_le {s : SubState} (h : SubInv s) (now : Nat) :
+    (s.turn (.expire now)).1.out.msgs.length ≤ s.out.msgs.length := by
+  simp only [SubState.turn]
+  obtain ⟨t', ds, he, _⟩ := Inv_takeExpired h.out now
+  rw [he]
+  obtain ⟨_, hp, _, _⟩ := takeExpired_spec h.out now he
+  have hl := hp.length_eq
+  simp only [List.length_append] at hl
+  by_cases hds : ds.isEmpty = true
+  · simp [hds]
+  · simp only [hds, Bool.false_eq_true, ↓reduceIte]
+    omega
+
+theorem sum_set_le : ∀ (l : List SubEnt), (l.map (·.sid)).Nodup → ∀ (e : SubEnt) (st : SubState), e ∈ l →
+    st.out.msgs.length ≤ e.st.out.msgs.length →
+    ((l.map (fun x => if x.sid == e.sid then { x with st := st } else x)).map (fun x => x.st.out.msgs.length)).sum
+      ≤ (l.map (fun x => x.st.out.msgs.length)).sum := by
+  intro l
+  induction l with
+  | nil => intro _ e st he; simp at he
+  | cons y ys ih =>
+    intro hu e st he hlt
+    simp only [List.map_cons, List.nodup_cons] at hu
+    simp only [List.mem_cons] at he
+    simp only [List.map_cons, List.sum_cons]
+    rcases he with rfl | he
+    · simp only [beq_self_eq_true, ↓reduceIte]
+      have hid : ys.map (fun x => if x.sid == e.sid then { x with st := st } else x) = ys := by
+        have : ys.map (fun x => if x.sid == e.sid then { x with st := st } else x) = ys.map id := by
+          apply List.map_congr_left
+          intro x hx
+          have : (x.sid == e.sid) = false := by
+            simp only [beq_eq_false_iff_ne, ne_eq]
+            intro hc
+            exact hu.1 (by rw [← hc]; exact List.mem_map_of_mem hx)
+          simp [this]
+        rw [this, List.map_id]
+      rw [hid]; omega
+    · have hne : (y.sid == e.sid) = false := by
+        simp only [beq_eq_false_iff_ne, ne_eq]
+        intro hc
+        exact hu.1 (by rw [hc]; exact List.mem_map_of_mem he)
+      simp only [hne, Bool.false_eq_true, ↓reduceIte]
+      have := ih hu.2 e st he hlt
+      omega
+
+/-- C15, the empty-response rule at system level for every state satisfying the global invariants
+    (all reachable ones: `SubsOk_all`, `SysInv_all`) in which no StreamingPull is open and at most 10^6
+    deliveries are outstanding: a Pull without `return_immediately` on an existing subscription
+    answers with an empty response only if the clock has reached its wait limit. -/
+theorem C15_blocking_pull (sys : Sys) (raw : Bytes) (mx : Int) (n : Name) (e : SubEnt)
+    (hp : parseSubName raw = some n) (hf : sys.findSub n = some e)
+    (hs : sys.streams = []) (hok : SubsOk sys) (hinv : SysInv sys) (hfuel : sys.totalOut ≤ 1000000)
+    (hempty : (sys.rpc (.pull raw mx false)).2 = .msgs []) :
+    ceilMs (sys.clock + pullLimitUs) + sys.clock % 1000 ≤ (sys.rpc (.pull raw mx false)).1.clock := by
+  have hu := SidsUnique_of_SysInv hinv
+  have hmem : e ∈ sys.subs := List.mem_of_find?_eq_some hf
+  have hfind : sys.findSubById e.sid = some e := find_unique sys.subs hu e hmem
+  by_cases hd : ((sys.subTurn e.sid (.pull (i32AsU16 mx) sys.clock)).2.delivered) = []
+  · refine C15_blocking_pull_aux sys raw mx n e hp hf hs hok hinv ?_ hempty
+    -- an empty pull followed by the expiry re-check does not add outstanding deliveries
+    have ho : (e.st.turn (.pull (i32AsU16 mx) sys.clock)).2.delivered = [] := by
+      have := subTurn_out sys e.sid (.pull (i32AsU16 mx) sys.clock) e.st (stateOf_of_find hfind)
+      rw [this] at hd; exact hd
+    have h1 := pull_empty_keeps_out e.st _ _ ho
+    have hinv1 : SubInv (e.st.turn (.pull (i32AsU16 mx) sys.clock)).1 := SubInv_turn (hok e hmem).1 _
+    have h2 := expire_len_le hinv1 sys.clock
+    rw [h1] at h2
+    have := sum_set_le sys.subs hu e ((e.st.turn (.pull (i32AsU16 mx) sys.clock)).1.turn (.expire sys.clock)).1 hmem h2
+    have heq : (sys.subTurn e.sid (.pull (i32AsU16 mx) sys.clock)).1.totalOut
+        = ((sys.subs.map (fun x => if x.sid == e.sid then { x with st := ((e.st.turn (.pull (i32AsU16 mx) sys.clock)).1.turn (.expire sys.clock)).1 } else x)).map (fun x => x.st.out.msgs.length)).sum := by
+      simp only [Sys.totalOut, Sys.subTurn, hfind, Sys.setSubState]
+    rw [heq]
+    have : sys.totalOut = (sys.subs.map (fun x => x.st.out.msgs.length)).sum := rfl
+    omega
+  · -- something was delivered at once: the answer is not empty
+    exfalso
+    simp only [Sys.rpc, hp, hf] at hempty
+    have hne : (!(sys.subTurn e.sid (.pull (i32AsU16 mx) sys.clock)).2.delivered.isEmpty || false) = true := by
+      simp only [Bool.or_false, Bool.not_eq_true', List.isEmpty_eq_false_iff]
+      exact hd
+    rw [if_pos hne] at hempty
+    simp only [Resp.msgs.injEq] at hempty
+    exact hd hempty
+
+/-- C15's empty-response rule for every reachable state. -/
+theorem C15_blocking_pull_reachable (ops : List SysOp) (raw : Bytes) (mx : Int) (n : Name) (e : SubEnt)
+    (hp : parseSubName raw = some n) (hf : (Sys.init.execOps ops).findSub n = some e)
+    (hs : (Sys.init.execOps ops).streams = [])
+    (hfuel : (Sys.init.execOps ops).totalOut ≤ 1000000)
+    (hempty : ((Sys.init.execOps ops).rpc (.pull raw mx false)).2 = .msgs []) :
+    ceilMs ((Sys.init.execOps ops).clock + pullLimitUs) + (Sys.init.execOps ops).clock % 1000
+      ≤ ((Sys.init.execOps ops).rpc (.pull raw mx false)).1.clock :=
+  C15_blocking_pull _ raw mx n e hp hf hs (SubsOk_all ops) (SysInv_all ops) hfuel hempty
 
 /-! Non-vacuity: the conclusion's two cases on the concrete system `exSys` (Lemmas/SysSub.lean). -/
 example : (exSys.rpc (.pull exS1 10 false)).2 = .msgs [] ∧ (exSys.rpc (.pull exS1 10 false)).1.clock = 300000000 := by decide
